@@ -30,6 +30,13 @@ def big_header(n):
     return "\n".join(parts) + "\n"
 
 
+def strings_header(n):
+    """Bindings in which almost every space is INSIDE a string literal (long string macros): whatever is done to the text as text
+    (wrapping, trimming, re-encoding) at any offset is overwhelmingly likely to land inside a literal and change a token."""
+    words = " ".join(["w", "xx", "yyy", "z z", "tab\\there", "q\\\"uote"] * 40)
+    return "\n".join(f'#define LONGSTR{i} "{i} {words}"' for i in range(n)) + "\n"
+
+
 def trusted(sin, sout, term):
     if sin == "shead" and term in ("e0", "e3"):
         return True   # a truncated but well-formed answer with a success status: trusted by design, like "half"
@@ -123,8 +130,13 @@ def run(ck, only=None):
         for size, hdr in (("small", small), ("big", big)):
             add("spawn-" + tag, hdr, size, "rustfmt", path, False, True, f"spawn fault: {tag}")
     # the three real settings: all must tokenise to the same stream
+    strs = []
+    for tag, n in (("strs200k", 150), ("strs700k", 520), ("strs1m5", 1100)):
+        pth = os.path.join(wd, tag + ".h")
+        open(pth, "w").write(strings_header(n))
+        strs.append((tag, pth))
     for fmt in ("none", "rustfmt", "prettyplease"):
-        for size, hdr in (("small", small), ("big", big)):
+        for size, hdr in [("small", small), ("big", big)] + strs:
             for conf in ((False, True) if fmt == "rustfmt" else (False,)):
                 add("real-" + fmt, hdr, size, fmt, None, conf, False, f"real formatter {fmt}")
     if not only or only.startswith("cli|"):
